@@ -47,7 +47,10 @@ def _native_or(interp, st, f, args, kwargs, node, fallback):
 
 def py_len(interp, st, v, node=None):
     """-> yields (st, VInt | Raise)"""
-    if isinstance(v, (VStr, VBytes)):
+    from .chars import VChars
+    if isinstance(v, VChars):
+        yield st, VInt(len(v.codes))
+    elif isinstance(v, (VStr, VBytes)):
         yield st, (VInt(len(v.v)) if v.concrete else mk_int(z3.Length(v.v)))
     elif isinstance(v, VTuple):
         yield st, VInt(len(v.items))
@@ -98,6 +101,12 @@ def py_int(interp, st, v, base=None, node=None):
     over-approximation of CPython's int(), which also accepts whitespace, underscores and Unicode
     digits."""
     bm.note(interp, 'int')
+    from .chars import VChars, chars_to_int
+    if isinstance(v, VChars):
+        if base is not None:
+            raise Unsupported("int(chars, base)", node)
+        yield from chars_to_int(interp, st, v)
+        return
     if isinstance(v, (VInt, VBool)) and base is None:
         yield st, VInt(as_int_term(v))
         return
@@ -197,6 +206,10 @@ def t_str(interp, st, args, kwargs, node=None):
         yield st, VStr('')
         return
     v = args[0]
+    from .chars import VChars
+    if isinstance(v, VChars) and not v.is_bytes and len(args) == 1:
+        yield st, v
+        return
     if len(args) > 1 or kwargs:
         # str(bytes, encoding)
         enc = args[1] if len(args) > 1 else kwargs.get('encoding')
@@ -389,6 +402,9 @@ def py_type(st, v):
         return int
     if isinstance(v, VStr):
         return str
+    from .chars import VChars
+    if isinstance(v, VChars):
+        return bytes if v.is_bytes else str
     if isinstance(v, VBytes):
         return bytearray if v.mutable else bytes
     if isinstance(v, VFloat):
@@ -967,6 +983,20 @@ def int_from_bytes(t, order):
 # ---------------------------------------------------------------------------------------------- methods
 
 def call_method(interp, st, recv, name, args, kwargs, node=None):
+    from .chars import VChars, chars_method, format_chars, to_vstr
+    if isinstance(recv, VChars):
+        yield from chars_method(interp, st, recv, name, args, kwargs, node)
+        return
+    if isinstance(recv, VStr) and recv.concrete and name == 'format' and \
+            any(not a.concrete or isinstance(a, VChars) for a in list(args) + list(kwargs.values())):
+        yield from format_chars(interp, st, recv.v, args, kwargs)
+        return
+    if isinstance(recv, (VStr, VBytes)) and any(isinstance(a, VChars) for a in args):
+        if name in ('join',) and recv.concrete:
+            from .chars import from_concrete
+            yield from chars_method(interp, st, from_concrete(recv), name, args, kwargs, node)
+            return
+        args = [to_vstr(a) if isinstance(a, VChars) else a for a in args]
     if isinstance(recv, (VStr, VBytes)):
         yield from str_method(interp, st, recv, name, args, kwargs, node)
     elif isinstance(recv, (VInt, VBool)):
